@@ -556,7 +556,7 @@ func (c19Driver) Run(spec *simrt.Spec, agg *Agg, keep bool) *Outcome {
 	// clause 4: nothing in flight at return, nothing started afterwards
 	if retStep >= 0 {
 		for _, a := range fslog {
-			if a.Seq > retStep && (a.Op == "mkdirall" || a.Op == "mkdir" || a.Op == "open-w" || a.Op == "write" || a.Op == "close-w") {
+			if a.Seq > retStep && (a.Op == "mkdirall" || a.Op == "mkdir" || a.Op == "open-w" || a.Op == "write" || a.Op == "close-w" || a.Op == "rename") {
 				return fail("in-flight-at-return", "Persist returned at event %d but task %s did %s %s at event %d", retStep, a.Task, a.Op, a.Path, a.Seq)
 			}
 		}
@@ -573,7 +573,8 @@ func (c19Driver) Run(spec *simrt.Spec, agg *Agg, keep bool) *Outcome {
 	// clause 5: each path opened for writing at most once; own content only
 	opens := map[string]int{}
 	for _, a := range fslog {
-		if a.Op == "open-w" && a.Err == "" {
+		// a path is written by opening it for writing, or by renaming a finished temporary file onto it
+		if (a.Op == "open-w" || a.Op == "rename") && a.Err == "" {
 			opens[a.Path]++
 		}
 	}
@@ -588,6 +589,9 @@ func (c19Driver) Run(spec *simrt.Spec, agg *Agg, keep bool) *Outcome {
 			return fail("written-twice", "%s was opened for writing %d times in one call", p, n)
 		}
 		if _, ok := be.byPath[p]; !ok {
+			if _, still := res.Disk[p]; !still {
+				continue // a temporary file of the implementation's own that is gone (renamed or removed) by the end
+			}
 			return fail("foreign-path", "a file was written under %s, which is no entry's path", p)
 		}
 	}
